@@ -43,6 +43,8 @@ func (c11) Gen(r *rand.Rand, tier string, run int) *core.Case {
 	c.Net.EOFData = []int{0, 50}[br.IntN(2)]
 	c.Net.Abortive = []int{0, 30}[br.IntN(2)]
 	c.Net.LateWrite = br.IntN(2) == 0
+	c.Net.CloseErr = []int{0, 0, 100}[br.IntN(3)]
+	c.Params["blocking_cb"] = br.IntN(2)
 	c.Params["scenario"] = block % 4
 	c.Params["tape_seed"] = int(br.Uint64() >> 33)
 	c.Params["block"] = block
@@ -74,6 +76,7 @@ type c11state struct {
 	pairOps     int
 	earlyReply  int
 	connectFail error
+	callsDone   chan struct{}
 }
 
 func (c11) Run(c *core.Case, env *core.Env) {
@@ -93,11 +96,19 @@ func (c11) Run(c *core.Case, env *core.Env) {
 		return
 	}
 	st.connected = true
+	// The application's callback may take its time: here it waits until the
+	// scenario's calls have returned (they must not depend on it).
+	callsDone := make(chan struct{})
+	st.callsDone = callsDone
+	blocking := c.P("blocking_cb", 0) == 1
 	cl.OnDisconnect(func(err error) {
 		st.mu.Lock()
 		st.discClient++
 		st.mu.Unlock()
 		zzsim.Event("client disconnect callback")
+		if blocking {
+			<-callsDone
+		}
 	})
 	st.mu.Lock()
 	st.regClient = zzsim.Seq()
@@ -116,6 +127,7 @@ func (c11) Run(c *core.Case, env *core.Env) {
 		st.mu.Unlock()
 		c11body(c, env, st, w, p)
 	}
+	close(callsDone)
 	// let everything settle, then a late call on the same connection
 	env.S.Quiesce()
 	if p != nil {
